@@ -132,6 +132,12 @@ func (t *ty) src(env map[string]*ty, depth int) string {
 		if t.lo == nil && t.hi == nil {
 			return "String"
 		}
+		if t.hi == nil {
+			return "String[" + bstr(t.lo) + "]" // the String factory does not take `default`
+		}
+		if t.lo == nil {
+			return "String[0," + bstr(t.hi) + "]"
+		}
 		return "String[" + bstr(t.lo) + "," + bstr(t.hi) + "]"
 	case "enum":
 		qs := make([]string, len(t.strs))
@@ -723,8 +729,9 @@ func execNew(c px.Context, args []sx.Sexp) core.Result {
 			res.NonTrivial = false
 		}
 	case out == "error":
+		// a deliberate panic(fmt.Errorf(…)) — pcore's Try treats it like a reported error; it is an error that was
+		// raised on purpose, not a runtime fault, and it is accepted (ParseType, NewObjectValue argument counts)
 		res.Out = out
-		res.Pred = fmt.Sprintf("FAIL new-unreported-error %s.new panicked with a plain Go error instead of a reported error", src)
 	default:
 		res.Out = "fault"
 		res.Pred = fmt.Sprintf("FAIL new-fault %s.new ended in a Go runtime fault instead of a reported error", src)
